@@ -93,13 +93,15 @@ type c14Obs struct {
 	Supply, Pool, Distr, Bonded, NotBonded, Gov *big.Int
 }
 
-func c14Observe(app c14App, ctx sdk.Context) c14Obs {
+func c14Observe(app c14App, ctx sdk.Context) c14Obs { return c14ObserveDenom(app, ctx, chain.Denom) }
+
+func c14ObserveDenom(app c14App, ctx sdk.Context, denom string) c14Obs {
 	bal := func(mod string) *big.Int {
-		return app.BankKeeper.GetBalance(ctx, authtypes.NewModuleAddress(mod), chain.Denom).Amount.BigInt()
+		return app.BankKeeper.GetBalance(ctx, authtypes.NewModuleAddress(mod), denom).Amount.BigInt()
 	}
-	pool := app.DistrKeeper.GetFeePoolCommunityCoins(ctx).AmountOf(chain.Denom)
+	pool := app.DistrKeeper.GetFeePoolCommunityCoins(ctx).AmountOf(denom)
 	return c14Obs{
-		Supply: app.BankKeeper.GetSupply(ctx, chain.Denom).Amount.BigInt(),
+		Supply: app.BankKeeper.GetSupply(ctx, denom).Amount.BigInt(),
 		Pool:   pool.TruncateInt().BigInt(), Distr: bal(distrtypes.ModuleName), Bonded: bal(stakingtypes.BondedPoolName),
 		NotBonded: bal(stakingtypes.NotBondedPoolName), Gov: bal(govtypes.ModuleName),
 	}
@@ -200,13 +202,21 @@ func runC14Keeper(st *ev.Stats, c C14Case) string {
 				}
 			}
 		case "propose":
-			m, err := govv1.NewMsgSubmitProposal(nil, sdk.NewCoins(coin), A.Addr.String(), "m", "t", "s")
+			dep := sdk.NewCoins(coin)
+			if op.Back%2 == 1 {
+				dep = dep.Add(sdk.NewCoin("uxmpl", sdkmath.NewInt(1000+op.Back)))
+			}
+			m, err := govv1.NewMsgSubmitProposal(nil, dep, A.Addr.String(), "m", "t", "s")
 			must(err)
 			_ = exec(m)
 		case "deposit":
 			props := app.GovKeeper.GetProposals(ctx)
 			if len(props) > 0 {
-				_ = exec(govv1.NewMsgDeposit(A.Addr, props[op.V%len(props)].Id, sdk.NewCoins(coin)))
+				dep := sdk.NewCoins(coin)
+				if op.Back%2 == 0 {
+					dep = dep.Add(sdk.NewCoin("uxmpl", sdkmath.NewInt(77+op.Back)))
+				}
+				_ = exec(govv1.NewMsgDeposit(A.Addr, props[op.V%len(props)].Id, dep))
 			}
 		case "burn-deposits":
 			props := app.GovKeeper.GetProposals(ctx)
@@ -219,8 +229,15 @@ func runC14Keeper(st *ev.Stats, c C14Case) string {
 				total = total.Add(dep.Amount...)
 			}
 			b0 := c14Observe(c14App{app}, ctx)
+			x0 := c14ObserveDenom(c14App{app}, ctx, "uxmpl")
 			app.GovKeeper.DeleteAndBurnDeposits(ctx, p.Id)
 			b1 := c14Observe(c14App{app}, ctx)
+			x1 := c14ObserveDenom(c14App{app}, ctx, "uxmpl")
+			if wantX := total.AmountOf("uxmpl").BigInt(); x1.Supply.Cmp(x0.Supply) != 0 || new(big.Int).Sub(x1.Pool, x0.Pool).Cmp(wantX) != 0 || new(big.Int).Sub(x1.Distr, x0.Distr).Cmp(wantX) != 0 {
+				return fail("deposit-burn-community-pool:second-denomination", fmt.Sprintf("op %d burn deposits %s: uxmpl supply %s->%s, pool +%s, distr +%s, expected +%s", i, total, x0.Supply, x1.Supply, new(big.Int).Sub(x1.Pool, x0.Pool), new(big.Int).Sub(x1.Distr, x0.Distr), wantX))
+			} else if wantX.Sign() > 0 {
+				st.Class("deposit-burned-two-denominations")
+			}
 			want := total.AmountOf(chain.Denom).BigInt()
 			d := func(a, b *big.Int) *big.Int { return new(big.Int).Sub(b, a) }
 			desc := fmt.Sprintf("op %d burn deposits of proposal %d (%s): supply %s->%s pool +%s distr +%s gov %s", i, p.Id, total, b0.Supply, b1.Supply, d(b0.Pool, b1.Pool), d(b0.Distr, b1.Distr), d(b0.Gov, b1.Gov))
